@@ -449,4 +449,373 @@ theorem foldMinMax_ty {call : Expr} {fn : String} {isMax : Bool} {values : List 
     · obtain ⟨d', hd', hr⟩ := mkCall_ty h
       rw [hd] at hd'; cases hd'; exact hr
 
+theorem simpCall_ty (f : Nat) (ihS : ∀ e r, simp f e = .ok r → WT e → WT r) {t : DataType} {fn : String} {args : ExprList} {r : Expr}
+    (h : simpCall (f + 1) (.call t fn args) fn args = .ok r) (hc : WT (.call t fn args)) : r.ty = t := by
+  obtain ⟨d, hd, ht, _⟩ := hc
+  obtain ⟨hnum, hbool, hstr⟩ := findFun_result hd
+  have keep : (Expr.call t fn args).ty = t := rfl
+  unfold simpCall at h
+  extract_lets arg0 at h
+  by_cases c0 : (fn == "abs") = true
+  · simp only [c0, ↓reduceIte] at h
+    have hfn := eq_of_beq c0
+    obtain ⟨a, ha, h⟩ := bind_ok h
+    split at h
+    · obtain ⟨v, hv, h⟩ := bind_ok h; rw [ht, hnum (by simp [hfn])]; exact litNumber_ty h
+    · cases h; exact keep
+  simp only [c0, Bool.false_eq_true, ↓reduceIte] at h
+  by_cases c1 : (fn == "bool") = true
+  · simp only [c1, ↓reduceIte] at h
+    have hfn := eq_of_beq c1
+    obtain ⟨a, ha, h⟩ := bind_ok h
+    split at h
+    · cases h; rw [ht, hbool hfn]; rfl
+    · cases h; exact keep
+  simp only [c1, Bool.false_eq_true, ↓reduceIte] at h
+  by_cases c2 : (fn == "int") = true
+  · simp only [c2, ↓reduceIte] at h
+    have hfn := eq_of_beq c2
+    obtain ⟨a, ha, h⟩ := bind_ok h
+    split at h
+    · obtain ⟨n, hn, h⟩ := bind_ok h; rw [ht, hnum (by simp [hfn])]; exact litNumber_ty h
+    · cases h; exact keep
+  simp only [c2, Bool.false_eq_true, ↓reduceIte] at h
+  by_cases c3 : (fn == "float") = true
+  · simp only [c3, ↓reduceIte] at h
+    have hfn := eq_of_beq c3
+    have hres : t = T.NUMBER := by rw [ht, hnum (by simp [hfn])]
+    obtain ⟨a, ha, h⟩ := bind_ok h
+    split at h
+    · obtain ⟨v, hv, h⟩ := bind_ok h; rw [hres]; exact litNumber_ty h
+    · split at h
+      · rw [hres]; exact litNumber_ty h
+      · rw [hres]; exact litNumber_ty h
+    · cases h; exact keep
+  simp only [c3, Bool.false_eq_true, ↓reduceIte] at h
+  by_cases c4 : (fn == "str") = true
+  · simp only [c4, ↓reduceIte] at h
+    have hfn := eq_of_beq c4
+    obtain ⟨a, ha, h⟩ := bind_ok h
+    split at h
+    · obtain ⟨sv, hs, h⟩ := bind_ok h
+      split at h
+      · cases h
+      · cases h; rw [ht, hstr hfn]; rfl
+    · cases h; exact keep
+  simp only [c4, Bool.false_eq_true, ↓reduceIte] at h
+  by_cases c5 : (fn == "len") = true
+  · simp only [c5, ↓reduceIte] at h
+    have hfn := eq_of_beq c5
+    have hres : t = T.NUMBER := by rw [ht, hnum (by simp [hfn])]
+    obtain ⟨a, ha, h⟩ := bind_ok h
+    split at h
+    · split at h
+      · rw [hres]; exact litNumber_ty h
+      · cases h; exact keep
+    · split at h
+      · obtain ⟨⟨lb, ub⟩, _, h⟩ := bind_ok h; rw [hres]; exact litNumber_ty h
+      · cases h; exact keep
+    · rw [hres]; exact litNumber_ty h
+    · cases h; exact keep
+  simp only [c5, Bool.false_eq_true, ↓reduceIte] at h
+  by_cases c6 : (fn == "sum") = true
+  · simp only [c6, ↓reduceIte] at h
+    have hfn := eq_of_beq c6
+    have hres : t = T.NUMBER := by rw [ht, hnum (by simp [hfn])]
+    obtain ⟨a, ha, h⟩ := bind_ok h
+    split at h
+    · split at h
+      · obtain ⟨v, hv, h⟩ := bind_ok h; rw [hres]; exact litNumber_ty h
+      · cases h; exact keep
+    · split at h
+      · obtain ⟨⟨lb, ub⟩, _, h⟩ := bind_ok h; rw [hres]; exact litNumber_ty h
+      · cases h; exact keep
+    · cases h; exact keep
+  simp only [c6, Bool.false_eq_true, ↓reduceIte] at h
+  by_cases c7 : (fn == "prod") = true
+  · simp only [c7, ↓reduceIte] at h
+    have hfn := eq_of_beq c7
+    have hres : t = T.NUMBER := by rw [ht, hnum (by simp [hfn])]
+    obtain ⟨a, ha, h⟩ := bind_ok h
+    split at h
+    · split at h
+      · rw [hres]; exact litNumber_ty h
+      · split at h
+        · obtain ⟨v, hv, h⟩ := bind_ok h; rw [hres]; exact litNumber_ty h
+        · cases h; exact keep
+    · split at h
+      · obtain ⟨⟨lb, ub⟩, _, h⟩ := bind_ok h
+        split at h
+        · cases h
+        · rw [hres]; exact litNumber_ty h
+      · cases h; exact keep
+    · cases h; exact keep
+  simp only [c7, Bool.false_eq_true, ↓reduceIte] at h
+  by_cases c8 : (fn == "max" || fn == "min") = true
+  · simp only [c8, ↓reduceIte] at h
+    have hfn : fn = "max" ∨ fn = "min" := by simpa [Bool.or_eq_true, beq_iff_eq] using c8
+    have hdn : d.result = T.NUMBER := hnum (by rcases hfn with h | h <;> simp [h])
+    have hres : t = T.NUMBER := by rw [ht, hdn]
+    have hcall : (Expr.call t fn args).ty = d.result := ht
+    split at h
+    · obtain ⟨a, ha, h⟩ := bind_ok h
+      split at h
+      · split at h
+        · obtain ⟨li, _, h⟩ := bind_ok h
+          obtain ⟨hi', _, h⟩ := bind_ok h
+          repeat' (split at h)
+          all_goals first | (rw [hres]; exact litNumber_ty h) | (cases h; exact keep)
+        · cases h; exact keep
+      · rw [ht]; exact foldMinMax_ty h hd hcall hdn
+      · cases h; exact keep
+    · rw [ht]; exact foldMinMax_ty h hd hcall hdn
+  simp only [c8, Bool.false_eq_true, ↓reduceIte] at h
+  by_cases c9 : (fn == "gcd") = true
+  · simp only [c9, ↓reduceIte] at h
+    have hfn := eq_of_beq c9
+    have hres : t = T.NUMBER := by rw [ht, hnum (by simp [hfn])]
+    split at h
+    · obtain ⟨x, hx, h⟩ := bind_ok h
+      obtain ⟨y, hy, h⟩ := bind_ok h
+      split at h
+      · rw [hres]; exact litNumber_ty h
+      · cases h
+      · cases h; exact keep
+    · cases h; exact keep
+  simp only [c9, Bool.false_eq_true, ↓reduceIte] at h
+  by_cases c10 : (fn == "ceil") = true
+  · simp only [c10, ↓reduceIte] at h
+    have hfn := eq_of_beq c10
+    have hres : t = T.NUMBER := by rw [ht, hnum (by simp [hfn])]
+    obtain ⟨a, ha, h⟩ := bind_ok h
+    split at h
+    · split at h
+      · rw [hres]; exact litNumber_ty h
+      · cases h
+    · cases h; exact keep
+  simp only [c10, Bool.false_eq_true, ↓reduceIte] at h
+  by_cases c11 : (fn == "floor") = true
+  · simp only [c11, ↓reduceIte] at h
+    have hfn := eq_of_beq c11
+    have hres : t = T.NUMBER := by rw [ht, hnum (by simp [hfn])]
+    obtain ⟨a, ha, h⟩ := bind_ok h
+    split at h
+    · split at h
+      · rw [hres]; exact litNumber_ty h
+      · cases h
+    · cases h; exact keep
+  simp only [c11, Bool.false_eq_true, ↓reduceIte] at h
+  by_cases c12 : (opaqueFuns.contains fn) = true
+  · simp only [c12, ↓reduceIte] at h
+    obtain ⟨a, ha, h⟩ := bind_ok h
+    split at h
+    · cases h
+    · cases h; exact keep
+  simp only [c12, Bool.false_eq_true, ↓reduceIte] at h
+  by_cases c13 : (fn == "atan2" || fn == "log") = true
+  · simp only [c13, ↓reduceIte] at h
+    split at h
+    · obtain ⟨x, hx, h⟩ := bind_ok h
+      obtain ⟨y, hy, h⟩ := bind_ok h
+      split at h
+      · cases h
+      · cases h; exact keep
+    · cases h
+  simp only [c13, Bool.false_eq_true, ↓reduceIte] at h
+  cases h; exact keep
+
+theorem simpCall_ty_any (f : Nat) {t : DataType} {fn : String} {args : ExprList} {r : Expr}
+    (h : simpCall f (.call t fn args) fn args = .ok r) (hc : WT (.call t fn args)) : r.ty = t := by
+  cases f with
+  | zero => simp [simpCall] at h
+  | succ f => exact simpCall_ty f (typedAt f).tS h hc
+
+/-! ## the recursion -/
+
+structure TyAt (f : Nat) : Prop where
+  yS : ∀ e r, simp f e = .ok r → WT e → r.ty = e.ty
+  yN : ∀ e a r, simpNeg f e a = .ok r → WT a → r.ty = T.NUMBER
+  yB : ∀ e r, simpBinop f e = .ok r → WT e → r.ty = e.ty
+  yM : ∀ expr a b r, simpMultiplication f expr a b = .ok r → expr.ty = T.NUMBER → NumT a → NumT b → r.ty = T.NUMBER
+  yP : ∀ e r, preBinop f e = .ok r → WT e → r.ty = e.ty
+
+theorem tyAt_zero : TyAt 0 := by
+  refine ⟨?_, ?_, ?_, ?_, ?_⟩
+  · intro e r h; simp [simp] at h
+  · intro e a r h; simp [simpNeg] at h
+  · intro e r h; simp [simpBinop] at h
+  · intro expr a b r h; simp [simpMultiplication] at h
+  · intro e r h; simp [preBinop] at h
+
+theorem ystep_pre {f : Nat} : ∀ e r, preBinop (f + 1) e = .ok r → WT e → r.ty = e.ty := by
+  intro e r h hw
+  cases e with
+  | bin t op x y =>
+    obtain ⟨d, hd, ht, _⟩ := hw
+    have same : ∀ {a b r : Expr}, mkBin op a b = .ok r → r.ty = (Expr.bin t op x y).ty := by
+      intro a b r hm
+      obtain ⟨d', hd', hr⟩ := mkBin_ty hm
+      rw [hd] at hd'; cases hd'; rw [hr]; exact ht.symm
+    simp only [preBinop] at h
+    obtain ⟨a, ha, h⟩ := bind_ok h
+    obtain ⟨b, hb, h⟩ := bind_ok h
+    split at h
+    · exact same h
+    · split at h
+      · exact same h
+      · split at h
+        · split at h
+          · cases h
+          · rename_i d2 hd2
+            rw [hd] at hd2; cases hd2
+            split at h
+            · exact same h
+            · rename_i hc
+              split at h
+              · exact same h
+              · rename_i inv hinv
+                have hpair := findBin_inverse hd (by simpa using hc) hinv
+                obtain ⟨d', hd', hr⟩ := mkBin_ty h
+                have hcmp_op : isCmp op = true := by
+                  rcases hpair with hp | hp | hp | hp <;> (simp only [Prod.mk.injEq] at hp; obtain ⟨rfl, rfl⟩ := hp; decide)
+                have hcmp_inv : isCmp inv = true := by
+                  rcases hpair with hp | hp | hp | hp <;> (simp only [Prod.mk.injEq] at hp; obtain ⟨rfl, rfl⟩ := hp; decide)
+                rw [hr, findBin_cmp hcmp_inv hd']
+                show T.BOOL = t
+                rw [ht, findBin_cmp hcmp_op hd]
+        · split at h
+          · cases h
+          · rename_i d2 hd2
+            rw [hd] at hd2; cases hd2
+            split at h
+            · obtain ⟨d', hd', hr⟩ := reassoc_ty h
+              rw [hd] at hd'; cases hd'; rw [hr]; exact ht.symm
+            · exact same h
+  | _ => simp [preBinop] at h
+
+theorem opEq {op : String} {s : String} (h : (op == s) = true) : op = s := eq_of_beq h
+
+theorem ystep_binop {f : Nat} (ih : TyAt f) : ∀ e r, simpBinop (f + 1) e = .ok r → WT e → r.ty = e.ty := by
+  intro e r h hw
+  simp only [simpBinop] at h
+  obtain ⟨e', he', h⟩ := bind_ok h
+  have hw' := (typedAt f).tP _ _ he' hw
+  have hty' := ih.yP _ _ he' hw
+  rw [← hty']
+  cases e' with
+  | bin t op a b =>
+    have wab := WT_bin_inv hw'
+    show r.ty = t
+    simp only at h
+    split at h
+    · rename_i ho; have := opEq ho; subst this
+      have tys := logic_tys (op := "and") (by decide) hw'
+      rw [tys.1]; exact simpConjunction_ty h tys.1 ⟨wab.1, tys.2.1⟩ ⟨wab.2, tys.2.2⟩
+    split at h
+    · rename_i ho; have := opEq ho; subst this
+      have tys := logic_tys (op := "or") (by decide) hw'
+      rw [tys.1]; exact simpDisjunction_ty h tys.1 ⟨wab.1, tys.2.1⟩ ⟨wab.2, tys.2.2⟩
+    split at h
+    · rename_i ho; have := opEq ho; subst this
+      have tys := logic_tys (op := "implies") (by decide) hw'
+      rw [tys.1]
+      split at h
+      · cases h; rfl
+      · obtain ⟨na, hna, h⟩ := bind_ok h
+        obtain ⟨dd, hdd, h⟩ := bind_ok h
+        rw [ih.yS _ _ h (mkOr_WT hdd (mkNot_WT hna wab.1) wab.2)]
+        exact mkBin_ty_logic (op := "or") (by decide) hdd
+    split at h
+    · rename_i ho; have := opEq ho; subst this
+      have tys := logic_tys (op := "iff") (by decide) hw'
+      rw [tys.1]
+      split at h; · cases h; rfl
+      split at h; · cases h; rfl
+      obtain ⟨i1, h1, h⟩ := bind_ok h
+      obtain ⟨i2, h2, h⟩ := bind_ok h
+      obtain ⟨c, hc, h⟩ := bind_ok h
+      rw [ih.yS _ _ h (mkAnd_WT hc (mkImplies_WT h1 wab.1 wab.2) (mkImplies_WT h2 wab.2 wab.1))]
+      exact mkBin_ty_logic (op := "and") (by decide) hc
+    split at h
+    · rename_i ho
+      have hcmp : isCmp op = true := by simpa [isCmp] using ho
+      have := cmp_ty hcmp hw'
+      rw [this]; exact simpComparison_ty h this
+    split at h
+    · rename_i ho; have := opEq ho; subst this
+      have tys := arith_tys (op := "+") (by decide) hw'
+      rw [tys.1]; exact simpAddition_ty h tys.1 tys.2.1 tys.2.2
+    split at h
+    · rename_i ho; have := opEq ho; subst this
+      have tys := arith_tys (op := "-") (by decide) hw'
+      rw [tys.1]; exact simpSubtraction_ty h tys.1 ⟨wab.1, tys.2.1⟩ ⟨wab.2, tys.2.2⟩
+    split at h
+    · rename_i ho; have := opEq ho; subst this
+      have tys := arith_tys (op := "*") (by decide) hw'
+      rw [tys.1]; exact ih.yM _ _ _ _ h tys.1 ⟨wab.1, tys.2.1⟩ ⟨wab.2, tys.2.2⟩
+    split at h
+    · rename_i ho; have := opEq ho; subst this
+      have tys := arith_tys (op := "/") (by decide) hw'
+      rw [tys.1]; exact simpDivision_ty h tys.1 tys.2.1
+    split at h
+    · rename_i ho; have := opEq ho; subst this
+      have tys := arith_tys (op := "**") (by decide) hw'
+      rw [tys.1]; exact simpExponentiation_ty h tys.1 tys.2.1
+    cases h; rfl
+  | _ => simp at h
+
+theorem ystep_simp {f : Nat} (ih : TyAt f) : ∀ e r, simp (f + 1) e = .ok r → WT e → r.ty = e.ty := by
+  intro e r h hw
+  cases e with
+  | un t op a =>
+    simp only [simp] at h
+    split at h
+    · rename_i ho; have := opEq ho; subst this
+      obtain ⟨p, hp, h⟩ := bind_ok h
+      rw [negationRule_ty h ((typedAt f).tS _ _ hp (WT_un_inv hw))]
+      exact (not_tys hw).1.symm
+    · split at h
+      · rename_i ho; have := opEq ho; subst this
+        rw [ih.yN _ _ _ h (WT_un_inv hw)]
+        exact (neg_tys hw).1.symm
+      · cases h; rfl
+  | bin t op a b => simp only [simp] at h; exact ih.yB _ _ h hw
+  | call t fn args => simp only [simp] at h; exact simpCall_ty_any f h hw
+  | set t vs =>
+    simp only [simp] at h
+    obtain ⟨vs', hvs, h⟩ := bind_ok h
+    have ht : t = T.SET := hw.1
+    have key : ∀ ws r, mkSet ws = .ok r → r.ty = T.SET := by
+      intro ws r hm; unfold mkSet at hm; obtain ⟨ws', _, hm⟩ := bind_ok hm; cases hm; rfl
+    split at h
+    · rw [key _ _ h]; exact ht.symm
+    · rw [key _ _ h]; exact ht.symm
+  | range t lo hi a b =>
+    simp only [simp] at h
+    obtain ⟨lo', hlo, h⟩ := bind_ok h
+    obtain ⟨hi', hhi, h⟩ := bind_ok h
+    have ht : t = T.RANGE := hw.1
+    unfold mkRange at h
+    obtain ⟨l2, _, h⟩ := bind_ok h
+    obtain ⟨h2, _, h⟩ := bind_ok h
+    cases h; exact ht.symm
+  | lit _ _ _ | this _ | var _ _ | quant _ _ _ _ _ | field _ _ _ | index _ _ _ =>
+    simp only [simp] at h; cases h; rfl
+
+theorem tyAt : ∀ f, TyAt f
+  | 0 => tyAt_zero
+  | f + 1 =>
+    have ih := tyAt f
+    ⟨ystep_simp ih,
+     fun e a r h hw => by
+       simp only [simpNeg] at h
+       obtain ⟨a', ha', h⟩ := bind_ok h
+       exact negNumberRule_ty h ((typedAt f).tS _ _ ha' hw),
+     ystep_binop ih,
+     fun _ _ _ _ h he ha hb => simpMultiplication_ty f ih.yN h he ha hb,
+     ystep_pre⟩
+
+/-- **the simplifier keeps the type**: on a well-typed expression, the result has exactly the input's type set -/
+theorem simplify_ty (e r : Expr) (h : simplifyExpr e = .ok r) (hw : WT e) : r.ty = e.ty := (tyAt _).yS _ _ h hw
+
 end Hpl
